@@ -55,6 +55,7 @@ type Spec struct {
 	Alt     int    `json:"alt,omitempty"`     // number of alternates / variant selector
 	Wide    bool   `json:"wide,omitempty"`    // coverage sets hold several glyphs instead of one
 	Seed    int64  `json:"seed,omitempty"`    // generated-rules kinds (rules.go): everything not named by a field is drawn from it
+	Mix     int    `json:"mix,omitempty"`     // gpos-rules: 1 puts a cursive / placement / mark mix in front of the drawn lookups (rules.go)
 }
 
 // Chooser yields bounded choices (shapecase.Source satisfies it).
